@@ -25,6 +25,7 @@ REQUIRED_THEOREMS = ['CfVerif.C05.' + t for t in (
     'unpack_inverse', 'types_match_firmware',
     'ack_effect', 'ack_callbacks', 'flags_follow_acks', 'start_sent_on_create_ack',
     'readd_stable', 'resolved_stable', 'readd_live_counterexample',
+    'add_config_partial_failure', 'configured_list_stable', 'accepted_variables_are_configured_list',
     'synclogger_fifo', 'sample_queued_once', 'next_takes_head', 'ends_at_disconnect',
     # Gen obligations
     'gen_types_single_code', 'gen_id_from_cstring', 'gen_logvar_init', 'gen_conf_init', 'gen_add_variable', 'gen_flag_setters',
@@ -52,6 +53,8 @@ RULE = ('cases = histories (one fresh Log per case) of the operation vocabulary 
         'create, acks and data packets with extreme values of every fetch type; random histories of <= 12 further operations over 1-3 configurations '
         'incl. reconnect to the same or another table / protocol generation + re-add, SyncLogger sessions incl. re-use, acks with every command and '
         'status incl. unknown ones, id-counter wrap-around, MAX_BLOCKS / MAX_VARIABLES exhaustion, malformed packets on channels 0-3. '
+        'rejected-then-re-added: a default-typed variable missing at EVERY position of lists of 1..6 names (and random typed/size/period rejections), '
+        'then 1-3 reconnects to other tables (other idents, protocol generation, again incomplete or complete) with re-add, create, acks, data. '
         'The reply to EVERY operation (exception class, packets handed to send_packet with expected_reply, callbacks with arguments, decoded samples, '
         'queue traffic, digest of all public state) is compared.  distinct = distinct request-line sequences; every case is non-trivial (>= 5 operations)')
 
@@ -1214,8 +1217,12 @@ def search(ctx):
             hist.append({'table_lacks': sorted(lack), 'add_config': rep.split(' ')[0]})
             if 'tx:' in rep:
                 ctx.witness('add-config-sends', 'add_config transmitted a packet', {'history': hist}, reply=rep[:200])
-            now = [name_key(v.name) for v in c.variables] + [name_key(n) for n in c.default_fetch_as]
-            if sorted(now) != sorted(n for n, _ in configured):
+            import collections
+            now = [name_key(v.name) for v in c.variables]
+            accepted = rep.startswith('ok ')
+            cnt, cfg = collections.Counter(now), collections.Counter(n for n, _ in configured)
+            # observable judgement: never MORE typed entries of a name than configured; exactly the configured ones once accepted
+            if any(cnt[n] > cfg[n] for n in cnt) or (accepted and cnt != cfg):
                 ctx.witness('readd-after-reject-changes-variables', 'after a rejected add_config and a re-add the LogConfig no longer holds exactly its '
                             'configured variables (once each)', {'default_typed': dnames, 'typed': tvars, 'history': hist}, holds=now)
                 ok = False
